@@ -101,7 +101,14 @@ func createOutboundQueueTablePerUser(db *sql.DB) error {
 
 // Mailbox management functions for per-user databases
 
-func CreateMailboxPerUser(db *sql.DB, userID int64, name string, specialUse string) (int64, error) {
+// mailboxExecer is what the mailbox helpers below need from a database handle;
+// both *sql.DB and *sql.Tx provide it, so a helper can run inside a transaction.
+type mailboxExecer interface {
+	Exec(query string, args ...interface{}) (sql.Result, error)
+	QueryRow(query string, args ...interface{}) *sql.Row
+}
+
+func CreateMailboxPerUser(db mailboxExecer, userID int64, name string, specialUse string) (int64, error) {
 	// Validate mailbox name
 	if name == "" {
 		return 0, fmt.Errorf("mailbox name cannot be empty")
@@ -153,7 +160,7 @@ func IncrementUIDNextPerUser(db *sql.DB, mailboxID int64) (int64, error) {
 	return newUID, nil
 }
 
-func MailboxExistsPerUser(db *sql.DB, userID int64, mailboxName string) (bool, error) {
+func MailboxExistsPerUser(db mailboxExecer, userID int64, mailboxName string) (bool, error) {
 	var count int
 	err := db.QueryRow("SELECT COUNT(*) FROM mailboxes WHERE user_id = ? AND name = ?", userID, mailboxName).Scan(&count)
 	return count > 0, err
@@ -249,6 +256,26 @@ func DeleteMailboxPerUser(db *sql.DB, userID int64, mailboxName string) error {
 	return tx.Commit()
 }
 
+// createParentMailboxesPerUser creates every missing mailbox above name
+// ("a" and "a/b" for "a/b/c").
+func createParentMailboxesPerUser(db mailboxExecer, userID int64, name string) error {
+	parts := strings.Split(name, "/")
+	for i := 0; i < len(parts)-1; i++ {
+		parentPath := strings.Join(parts[:i+1], "/")
+		exists, err := MailboxExistsPerUser(db, userID, parentPath)
+		if err != nil {
+			return err
+		}
+		if !exists {
+			_, err = CreateMailboxPerUser(db, userID, parentPath, "")
+			if err != nil && !strings.Contains(err.Error(), "already exists") {
+				return fmt.Errorf("failed to create parent hierarchy %s: %v", parentPath, err)
+			}
+		}
+	}
+	return nil
+}
+
 func RenameMailboxPerUser(db *sql.DB, userID int64, oldName, newName string) error {
 	// Cannot rename TO INBOX
 	if strings.ToUpper(newName) == "INBOX" {
@@ -275,30 +302,18 @@ func RenameMailboxPerUser(db *sql.DB, userID int64, oldName, newName string) err
 		return fmt.Errorf("destination mailbox already exists")
 	}
 
-	// Create intermediate hierarchies if needed (RFC 3501 requirement)
-	if strings.Contains(newName, "/") {
-		parts := strings.Split(newName, "/")
-		for i := 0; i < len(parts)-1; i++ {
-			parentPath := strings.Join(parts[:i+1], "/")
-			exists, err := MailboxExistsPerUser(db, userID, parentPath)
-			if err != nil {
-				return err
-			}
-			if !exists {
-				_, err = CreateMailboxPerUser(db, userID, parentPath, "")
-				if err != nil && !strings.Contains(err.Error(), "already exists") {
-					return fmt.Errorf("failed to create parent hierarchy %s: %v", parentPath, err)
-				}
-			}
-		}
-	}
-
 	// Start transaction
 	tx, err := db.Begin()
 	if err != nil {
 		return err
 	}
 	defer func() { _ = tx.Rollback() }()
+
+	// Create intermediate hierarchies if needed (RFC 3501 requirement). They are
+	// created inside the transaction, so a rename that fails leaves nothing behind.
+	if err := createParentMailboxesPerUser(tx, userID, newName); err != nil {
+		return err
+	}
 
 	// Rename the mailbox
 	_, err = tx.Exec("UPDATE mailboxes SET name = ? WHERE id = ?", newName, mailboxID)
